@@ -39,7 +39,9 @@ def run(tier):
 
 
 TABLES = [("flows", "@taint_flows")]
-WITNESSES = ()
+# open known findings (each gets a slice of its own, in both rule-set legs)
+WITNESSES = ("t_global_set_in_callee_then_copied", "t_nested_field_written_in_callee",
+             "t_helper_with_sink_through_wrapper_three_calls", "t_closure_returns_captured")
 
 
 def taint_programs():
